@@ -1,5 +1,6 @@
 import Gallia.Lib.Proto
 import Gallia.Model.ClientIO
+import Gallia.Model.ClientSession
 open Gallia Gallia.Proto Gallia.Client Gallia.ClientIO
 
 /-
@@ -27,6 +28,12 @@ open Gallia Gallia.Proto Gallia.Client Gallia.ClientIO
   trace:   `L` acquire, `U` release, `w:<tmo>:<o|T|C>:<dur>`, `r<k>:<tmo>:<dur>`, `s<d>`, `c:<o|C|T|O>`
 
     readtmo <selfTimeout|none> <arg|none>      -> the timeout `UDSClient._read` hands to transport.read
+
+  Sessions (`Model/ClientSession.lean`, `runSession`):
+
+    session <step> <step> ...     a step is the seven words of a `run` line after `run`
+
+  Reply:  `<outcome>:<writes>:<reads>:<elapsed>` per request, joined by `|`
 -/
 
 def evOfChar : Char → Option Ev
@@ -126,8 +133,37 @@ def stepX (ct cm rt rm lat scr pad wscr wpad rscr rpad : String) : String :=
     | _, _, _, _, _, _ => "bad-op"
   | _, _, _, _, _ => "bad-op"
 
+/-- one step of a `session` line: seven words as in `run` -/
+def parseStep : List String → Option Step
+  | [ct, cm, rt, rm, lat, scr, pad] =>
+    match ct.toNat?, cm.toNat?, parseOptNat rt, parseOptNat rm, lat.toNat?, parseScript scr, one evOfChar pad with
+    | some ct, some cm, some rt, some rm, some lat, some arr, some padEv =>
+      some (resolve ct cm rt rm lat Limits.std, fun k => arr.getD k padEv)
+    | _, _, _, _, _, _, _ => none
+  | _ => none
+
+def parseSteps (fuel : Nat) (ws : List String) : Option (List Step) :=
+  match fuel, ws with
+  | _, [] => some []
+  | 0, _ => none
+  | fuel + 1, ws =>
+    match parseStep (ws.take 7), parseSteps fuel (ws.drop 7) with
+    | some st, some rest => some (st :: rest)
+    | _, _ => none
+
+/-- `session <step> <step> ...` (7 words per step, as in `run`): the results of `runSession`, one `out:writes:reads:elapsed`
+    per request, joined by `|` -/
+def stepSession (ws : List String) : String :=
+  match parseSteps ws.length ws with
+  | some steps =>
+    let rs := runSession steps
+    if rs.isEmpty then "-" else
+    "|".intercalate (rs.map fun r => s!"{showOut r.out}:{r.writes}:{r.reads}:{r.elapsed}")
+  | none => "bad-op"
+
 def step (line : String) : String :=
   match words line with
+  | "session" :: ws => stepSession ws
   | ["runx", ct, cm, rt, rm, lat, scr, pad, wscr, wpad, rscr, rpad] => stepX ct cm rt rm lat scr pad wscr wpad rscr rpad
   | ["readtmo", st, arg] =>
     match parseOptNat st, parseOptNat arg with
